@@ -61,6 +61,14 @@ fn c04_test(raw: &RawGrammar, st: &mut Stats) -> Result<(), Failure> {
         return Ok(());
     };
     let sh = classify(st, &g, &a);
+    // self-check of the reference: SLR(1) conflict-free => LALR(1) conflict-free => LR(1) conflict-free
+    if (a.slr_conflict_free && !a.lalr_ok()) || (a.lalr_ok() && !a.lr1_tables.conflict_free()) {
+        return Err(Failure::internal(
+            "oracle-inconsistency",
+            format!("reference classes violate SLR ⊆ LALR ⊆ LR(1): slr={} lalr={} lr1={}", a.slr_conflict_free, a.lalr_ok(), a.lr1_tables.conflict_free()),
+            text_case(&g.text),
+        ));
+    }
     let out = outcome::generate(&g.text);
     if sh.recursive && a.lalr.states.len() >= 6 {
         st.nontrivial(&cfg::canon(&g.cfg));
